@@ -487,26 +487,26 @@ func (st *c09State) afterStop(target *stNode, api string, callSeq int) {
 	}
 }
 
-// capLogger is the discard logger plus a memory of the warnings and errors goakt
+// c09CapLogger is the discard logger plus a memory of the warnings and errors goakt
 // logs: they name the system actor that failed when the system shuts itself down.
 // It adds no scheduling point (plain harness state), so schedules are unaffected.
-type capLogger struct {
+type c09CapLogger struct {
 	log.Logger
 	lines *[]string
 }
 
-func (l capLogger) keep(s string) {
+func (l c09CapLogger) keep(s string) {
 	if len(*l.lines) < 400 {
 		*l.lines = append(*l.lines, s)
 	}
 }
-func (l capLogger) Enabled(level log.Level) bool {
+func (l c09CapLogger) Enabled(level log.Level) bool {
 	return level == log.WarningLevel || level == log.ErrorLevel
 }
-func (l capLogger) Warn(v ...any)             { l.keep("W " + fmt.Sprint(v...)) }
-func (l capLogger) Warnf(f string, v ...any)  { l.keep("W " + fmt.Sprintf(f, v...)) }
-func (l capLogger) Error(v ...any)            { l.keep("E " + fmt.Sprint(v...)) }
-func (l capLogger) Errorf(f string, v ...any) { l.keep("E " + fmt.Sprintf(f, v...)) }
+func (l c09CapLogger) Warn(v ...any)             { l.keep("W " + fmt.Sprint(v...)) }
+func (l c09CapLogger) Warnf(f string, v ...any)  { l.keep("W " + fmt.Sprintf(f, v...)) }
+func (l c09CapLogger) Error(v ...any)            { l.keep("E " + fmt.Sprint(v...)) }
+func (l c09CapLogger) Errorf(f string, v ...any) { l.keep("E " + fmt.Sprintf(f, v...)) }
 
 // guarded runs a goakt call that has been seen to dereference a nil PID (a tree node
 // cleared by a concurrent deleteNode) and turns the runtime panic into a log entry
@@ -596,7 +596,7 @@ func (st *c09State) spawnOp(thread int, parent *stNode) {
 
 func c09Run(c *Ctx) {
 	var logged []string
-	s := StartSys(c, "c09", append(sysOpts(c), actor.WithLogger(capLogger{log.DiscardLogger, &logged}))...)
+	s := StartSys(c, "c09", append(sysOpts(c), actor.WithLogger(c09CapLogger{log.DiscardLogger, &logged}))...)
 	t := newStTree(c, s)
 	st := &c09State{t: t, final: map[string]*c09Final{}, touched: map[string]bool{}, logged: &logged}
 	c.state = st
